@@ -3,6 +3,7 @@ package main
 import (
 	"encoding/json"
 	"fmt"
+	"strings"
 
 	"go.pennock.tech/tabular"
 	"go.pennock.tech/tabular/csv"
@@ -107,6 +108,29 @@ func randTable(r *RNG, maxRows, maxCells int, text func(*RNG) ItemSpec, hows []i
 		}
 	}
 	return shapeSpec(r, h, rows, text, hows)
+}
+
+// wideSpec: a table that reaches k columns: 0 = by its header, 1 = by one
+// AddRowItems, 2 = step by step (a row attached empty and extended cell by cell,
+// under a shorter header)
+func wideSpec(k, how int, text func(*RNG) ItemSpec, r *RNG) TableSpec {
+	cells := func(n int) []ItemSpec {
+		cs := make([]ItemSpec, n)
+		for i := range cs {
+			cs[i] = text(r)
+		}
+		return cs
+	}
+	switch how {
+	case 0:
+		h := cells(k)
+		return TableSpec{Header: &h, Rows: []RowSpec{{Cells: cells(k)}, {Cells: cells(2)}}}
+	case 1:
+		h := cells(2)
+		return TableSpec{Header: &h, Rows: []RowSpec{{Cells: cells(1)}, {Cells: cells(k)}, {Sep: true}, {Cells: cells(k - 1)}}}
+	}
+	h := cells(3)
+	return TableSpec{Header: &h, Rows: []RowSpec{{Cells: cells(2)}, {How: 2, Cells: cells(k)}, {Cells: cells(1)}}}
 }
 
 func shapeTags(v View) []string {
@@ -245,6 +269,11 @@ func shrinkTable(ts TableSpec) []TableSpec {
 		c.Header2 = nil
 		out = append(out, c)
 	}
+	if ts.Reenter != 0 {
+		c := clone()
+		c.Reenter = 0
+		out = append(out, c)
+	}
 	for i := range ts.PropOps {
 		c := clone()
 		c.PropOps = append(append([]PropOp{}, ts.PropOps[:i]...), ts.PropOps[i+1:]...)
@@ -336,6 +365,45 @@ func init() {
 					{Cells: []ItemSpec{Str(s), Str("m"), Str("z")}},
 					{Cells: []ItemSpec{Str("a"), Str(s)}},
 					{Cells: []ItemSpec{Str("a"), Str("m"), Str(s)}}}})
+			}
+			// records at the sizes where buffering layers change behaviour (512 B,
+			// 4 KiB, 8 KiB, 64 KiB), before, between and after small records; half
+			// of them made of quote characters (which double)
+			bigSizes := []int{509, 2045, 4089, 4090, 4096, 8190}
+			if tier == "thorough" {
+				bigSizes = append(bigSizes, 70000, 510, 511, 512, 1023, 2046, 2047, 2048, 4091, 4092, 4093, 4094, 4095, 4097, 8191, 8192, 16384, 32768, 65536)
+			}
+			for i, n := range bigSizes {
+				body := strings.Repeat("x", n)
+				if i%2 == 1 {
+					body = strings.Repeat(`"`, n/2) + strings.Repeat("y", n-n/2)
+				}
+				h := []ItemSpec{Str("h1"), Str("h2")}
+				small := RowSpec{Cells: []ItemSpec{Str("a"), Str("b")}}
+				bigRow := RowSpec{Cells: []ItemSpec{Str("k"), Str(body)}}
+				switch i % 4 {
+				case 0:
+					add(TableSpec{Header: &h, Rows: []RowSpec{small, bigRow, small}})
+				case 1:
+					add(TableSpec{Header: &h, Rows: []RowSpec{small, small, bigRow}, FinalVia: 1})
+				case 2:
+					hb := []ItemSpec{Str("h1"), Str(body)}
+					add(TableSpec{Header: &hb, Rows: []RowSpec{small, bigRow, bigRow, small}})
+				default:
+					add(TableSpec{Rows: []RowSpec{bigRow, small, {Sep: true}, bigRow, small}, FinalVia: 1})
+				}
+			}
+			// many small records (a batch fills up), and many columns
+			{
+				h := []ItemSpec{Str("h1"), Str("h2")}
+				long := TableSpec{Header: &h}
+				for i := 0; i < 700; i++ {
+					long.Rows = append(long.Rows, RowSpec{Cells: []ItemSpec{Str(fmt.Sprintf("r%d", i)), Str("v\"w")}})
+				}
+				add(long)
+				for _, k := range []int{9, 10, 11, 22, 23, 47} {
+					add(wideSpec(k, k%3, csvText, r))
+				}
 			}
 			n := 300
 			if tier == "thorough" {
